@@ -67,6 +67,8 @@ Section Launch.
 
   Definition o_positions (o : optic) : list T := map (fun s => p_z s) (o_surfs o).
   Definition o_objz (o : optic) : T := match o_surfs o with s :: _ => p_z s | [] => nan_ end.
+  (** index of the object-space medium at the primary wavelength (object_surface.material_post.n) *)
+  Definition o_n0 (o : optic) : T := match o_surfs o with s :: _ => p_npost s | [] => nan_ end.
   Definition o_EPL (o : optic) : T := EPL (o_surfs o).
   Definition o_EPD (o : optic) : T := EPD (o_surfs o) (aptype_of (o_aptype o)) (o_apval o).
 
@@ -77,7 +79,7 @@ Section Launch.
     | Some (v0, v1) =>
         k_rg_generate O Hx Hy Px Py w v0 v1 (max_field (o_fields o)) (isinf_ (o_objz o)) (o_ftype o) (o_tele o)
           (o_EPL o) (o_EPD o) (o_positions o) (o_objR o) (o_objk o) (o_objz o)
-          (o_aptype o) (o_apval o) (o_pol o) (o_uses_pol o)
+          (o_aptype o) (o_n0 o) (o_apval o) (o_pol o) (o_uses_pol o)
     end.
 
   (** Optic.trace_generic: the pupil coordinates are scaled by (1 - v) before the generator scales them again *)
